@@ -1,9 +1,121 @@
 import Driver.Util
-open Lean
+import Driver.C14
+import Torf.Spec.MagnetUri
+open Lean Torf Torf.Magnet
 namespace Driver.C13
+open Driver.C14 (cpsOfJson getCps getOptCps getCpsList jcps jerr jexc)
 
-/-- ops of property C13: `c13.<name>` -/
-def handle (op : String) (_j : Json) : Except String Json :=
-  throw s!"unknown op {op}"
+def magnetOfJson (j : Json) : Except String MagnetObj := do
+  let x ← (← getArr j "x").mapM fun p => do
+    match (← p.getArr?).toList with
+    | [k, v] => do pure ((← cpsOfJson k), (← cpsOfJson v))
+    | _ => throw "x: pairs expected"
+  pure { infohash := ← getCps j "infohash", dn := ← getOptCps j "dn",
+         xl := (j.getObjValAs? Nat "xl").toOption, tr := ← getCpsList j "tr",
+         xs := ← getOptCps j "xs", as_ := ← getOptCps j "as_", ws := ← getCpsList j "ws",
+         kt := ← getCpsList j "kt", x := x }
+
+def jmagnet (m : MagnetObj) : Json :=
+  jobj [("infohash", jcps m.infohash), ("dn", jopt jcps m.dn), ("xl", jopt jnat m.xl),
+        ("tr", jarr (m.tr.map jcps)), ("xs", jopt jcps m.xs), ("as_", jopt jcps m.as_),
+        ("ws", jarr (m.ws.map jcps)), ("kt", jarr (m.kt.map jcps)),
+        ("x", jarr (m.x.map fun p => jarr [jcps p.1, jcps p.2]))]
+
+def jparse : ParseResult → Json
+  | .ok m => jobj [("ok", jmagnet m)]
+  | .err e => jobj [("err", jerr (some e))]
+  | .notModelled => jobj [("notModelled", jbool true)]
+
+def oracles (j : Json) : Except String ((Str → Bool) × (Str → IntResult)) := do
+  let valid ← getCpsList j "valid"
+  let ints ← match j.getObjVal? "ints" with
+    | .ok v => (← v.getArr?).toList.mapM fun p => do
+        match (← p.getArr?).toList with
+        | [k, v] => do
+          let r : IntResult := (v.getInt?).toOption
+          pure ((← cpsOfJson k), r)
+        | _ => throw "ints: pairs expected"
+    | .error _ => pure []
+  pure (fun s => valid.contains s, fun s => (ints.lookup s).getD none)
+
+/-- `c13.quote`: quote_plus and the way back -/
+def quote (j : Json) : Except String Json := do
+  let s ← getCps j "s"
+  let q := quotePlus s
+  return jobj [("model", jobj [("quoted", jcps q), ("back", jopt jcps (unquotePlus q))]),
+               ("specEq", jbool (unquotePlus q == some s)), ("hyp", jbool true)]
+
+/-- `c13.unquote`: unquote_plus on an arbitrary string (null = invalid UTF-8, not modelled) -/
+def unquote (j : Json) : Except String Json := do
+  let s ← getCps j "s"
+  return jobj [("model", jopt jcps (unquotePlus s)), ("hyp", jbool (unquotePlus s).isSome)]
+
+/-- `c13.render`: str(m) of a magnet object given field by field -/
+def renderOp (j : Json) : Except String Json := do
+  let m ← magnetOfJson (← j.getObjVal? "m")
+  let (isUrl, _) ← oracles j
+  return jobj [("model", jcps (render m)), ("hyp", jbool (WF isUrl m)),
+               ("constructible", jbool (constructible isUrl m))]
+
+/-- `c13.pairs`: what `parse_qs` sees (so that the harness can ask the real `is_url` / `int`) -/
+def pairsOp (j : Json) : Except String Json := do
+  let uri ← getCps j "uri"
+  match urlparseMagnet (pyStrip uri) with
+  | none => return jobj [("model", Json.null)]
+  | some (scheme, q) =>
+    return jobj [("model", jobj [("scheme", jcps scheme),
+      ("pairs", jopt (fun ps => jarr (ps.map fun p => jarr [jcps p.1, jcps p.2])) (parseQsl q))])]
+
+/-- `c13.parse`: from_string -/
+def parseOp (j : Json) : Except String Json := do
+  let uri ← getCps j "uri"
+  let (isUrl, intO) ← oracles j
+  let r := fromString isUrl intO uri
+  return jobj [("model", jparse r), ("hyp", jbool (r != .notModelled))]
+
+/-- `c13.roundtrip`: render then parse; spec = the object itself -/
+def roundtrip (j : Json) : Except String Json := do
+  let m ← magnetOfJson (← j.getObjVal? "m")
+  let (isUrl, intO) ← oracles j
+  let s := render m
+  let r := fromString isUrl intO s
+  return jobj [("model", jobj [("uri", jcps s), ("parsed", jparse r)]),
+               ("specEq", jbool (r == .ok m)), ("hyp", jbool (WF isUrl m)),
+               ("constructible", jbool (constructible isUrl m))]
+
+def viewOfJson (j : Json) : Except String TorrentView := do
+  pure { infohash := ← getCps j "infohash", name := ← getOptCps j "name",
+         size := (j.getObjValAs? Nat "size").toOption, trackers := ← getCpsList j "trackers",
+         webseeds := ← getCpsList j "webseeds" }
+
+def jview (t : TorrentView) : Json :=
+  jobj [("infohash", jcps t.infohash), ("name", jopt jcps t.name), ("size", jopt jnat t.size),
+        ("trackers", jarr (t.trackers.map jcps)), ("webseeds", jarr (t.webseeds.map jcps))]
+
+/-- `c13.torrent`: torrent → magnet → string → magnet → torrent -/
+def torrentOp (j : Json) : Except String Json := do
+  let t ← viewOfJson (← j.getObjVal? "t")
+  let (isUrl, intO) ← oracles j
+  let res : Json := match magnetOfTorrent isUrl t with
+    | .error e => jobj [("err", jerr (some e))]
+    | .ok m =>
+      match fromString isUrl intO (render m) with
+      | .ok m' => (match torrentOfMagnet m' with
+        | .ok t' => jobj [("ok", jview t'), ("uri", jcps (render m))]
+        | .error e => jobj [("err", jerr (some e))])
+      | .err e => jobj [("err", jerr (some e)), ("uri", jcps (render m))]
+      | .notModelled => jobj [("notModelled", jbool true)]
+  return jobj [("model", res), ("hyp", jbool (TorrentOk isUrl t))]
+
+def handle (op : String) (j : Json) : Except String Json :=
+  match op with
+  | "c13.quote" => quote j
+  | "c13.unquote" => unquote j
+  | "c13.render" => renderOp j
+  | "c13.pairs" => pairsOp j
+  | "c13.parse" => parseOp j
+  | "c13.roundtrip" => roundtrip j
+  | "c13.torrent" => torrentOp j
+  | _ => throw s!"unknown op {op}"
 
 end Driver.C13
